@@ -732,8 +732,8 @@ def sugarbase_case(seed):
   rules.append(Rule('Fn', [x], value=rnd.choice([y, Bin('+', y, Num(1))]), body=fbody,
                     value_style=rnd.choice(['=', 'logica_value'])))
   kinds = ['neg_call', 'combine_call', 'impl_call', 'multi_rule', 'in_list', 'value_agg',
-           'call_chain', 'in_computed']
-  kind = kinds[seed % len(kinds)]     # every kind appears in every 8 consecutive seeds
+           'call_chain', 'in_computed', 'call_twice']
+  kind = kinds[seed % len(kinds)]     # every kind appears in every 9 consecutive seeds
   c = Num(rnd.choice([0, 1, 2]))
   if kind == 'neg_call':
     pos = rnd.choice([[A('G', y)], [A('E', x, y)]])
@@ -771,6 +771,13 @@ def sugarbase_case(seed):
     op = rnd.choice(['Sum', 'Min', 'Max', 'Count'])
     rules.append(Rule('P', [x], value=Agg(op, Call('Fn', [y], [])), body=A('E', x, y)))
     rules.append(Rule('Q', [x, v], body=Conj([A('G', x), Cmp('==', v, Call('P', [x], []))])))
+  elif kind == 'call_twice':
+    # the same functional call written twice in one rule: two conjuncts, two values
+    call = Call('Fn', [x], [])
+    if rnd.random() < 0.5:
+      rules.append(Rule('P', [x, Bin(rnd.choice(['+', '-']), call, call)], body=A('G', x)))
+    else:
+      rules.append(Rule('P', [x, y], body=Conj([A('G', x), Cmp('>', call, c), Cmp('==', y, call)])))
   elif kind == 'call_chain':
     rules.append(Rule('P', [x, Bin('+', Call('Fn', [Call('Fn', [x], [])], []), Num(1))], body=A('G', x)))
   prog = Program(rules, ext=EXT)
